@@ -33,6 +33,12 @@ in the generator's order, steps that are zero dropped -/
 def emitSteps (base ρ : K) (exps : List Int) : List K :=
   (exps.map (fun e => base * zpowK ρ e)).filter (fun s => decide (Num.zero < Num.abs s))
 
+/-- the same for a per-variable base step (`base_step` array-like): a step is the vector `bases * ρ ** e`, kept only if **all** of
+its components are non-zero (`if (np.abs(step) > 0).all(): yield step`) -/
+def emitStepsVec (bases : List K) (ρ : K) (exps : List Int) : List (List K) :=
+  (exps.map (fun e => bases.map (fun b => b * zpowK ρ e))).filter
+    (fun v => v.all (fun s => decide (Num.zero < Num.abs s)))
+
 def stepsMax (base ρ : K) (numSteps : Nat) (offset : Int) : List K :=
   emitSteps base ρ (basicMaxExponents numSteps offset)
 
